@@ -126,6 +126,22 @@ func runSuffix(s *Script, rec *Rec) {
 				e["lcps"] = [][]int{}
 			}
 			rec.Emit(e)
+		case "sortprim":
+			// trHeapSort / trInsertionSort on an input enumerated by
+			// SortPrims.tla (verif export VerifTrSortPrim)
+			ka, _ := op["keys"].([]any)
+			keys := make([]int32, len(ka))
+			sa := make([]int32, len(ka))
+			for i, x := range ka {
+				keys[i] = int32(num(x))
+				sa[i] = int32(i)
+			}
+			e := Event{"op": name, "fn": str(op["fn"]), "keys": i32(keys)}
+			if !rec.Call(name, func() { suffix.VerifTrSortPrim(str(op["fn"]) == "heap", sa, keys) }) {
+				return
+			}
+			e["sa_after"] = i32(sa)
+			rec.Emit(e)
 		case "trcopy":
 			// one call of trCopy / trPartialCopy in a situation enumerated by
 			// TrCopy.tla (verif export VerifTrCopy)
